@@ -23,6 +23,7 @@ import sys
 import traceback
 
 from runtime.common import use_repo, spec_examples, alpha, SIGMA28, SIGMA12, pool_map, merge, chunks, REPO
+from runtime.mtutil import keep_smallest
 
 use_repo()
 import mistletoe  # noqa: E402
@@ -76,8 +77,12 @@ def families():
     """Group configuration indexes by the token set they install (measured)."""
     fam = {}
     for i, (_, path, opts) in enumerate(CONFIGS):
-        with _cls(path)(**opts):
-            sig = (tuple(block_token._token_types), tuple(span_token._token_types))
+        try:
+            with _cls(path)(**opts):
+                sig = (tuple(block_token._token_types), tuple(span_token._token_types))
+        except Exception:  # noqa -- reported as a 'construct' failure by run_family
+            reset_globals()
+            sig = ('cannot construct', i)
         fam.setdefault(sig, []).append(i)
     return list(fam.values())
 
@@ -347,6 +352,9 @@ def nasty():
           'a\n' + '-' * 100, '1' * 100 + '.', '9' * 9 + '. a', '9' * 10 + '. a', ' ' * 1000, ' ' * 1000 + 'a', 'a' + ' ' * 1000, 'a' * 4000,
           'a ' * 2000, 'a\n' * 1000, '\n' * 1000, '\t' * 200, '\t' * 200 + 'a', 'a *b* ' * 500, '[a]: b\n' * 200, '[a]: b\n' * 200 + '[a]' * 200]
     # deep nesting, at most 100 levels
+    import string
+    s += ['`' + string.punctuation.replace('`', '') + string.digits + '`', 'a `' + string.punctuation.replace('`', '') + string.digits + ' b` c',
+          '`|`', '`|!`', '`|!"\'=+`', '``` nosuchlanguage\na\n```', '```python\nprint(1)\n```', '~~~ c++ x\n~~~']
     for n in (10, 50, 100):
         s += ['>' * n, '>' * n + 'a', '> ' * n + 'a', '>' * n + '\n' + '>' * (n // 2) + 'a', '> ' * n + '- a', '- ' * n + 'a', '- ' * n,
               '* ' * n + 'a', '1. ' * n + 'a', '+ ' * (n // 2) + '> ' * (n // 2) + 'a', '> - ' * (n // 2) + 'a', '>- ' * (n // 2) + '```',
@@ -362,7 +370,8 @@ def nasty():
     return out
 
 
-SIG = {'SIGMA28': SIGMA28, 'SIGMA12': SIGMA12}
+# common.SIGMA28 lists '>' twice: 27 distinct characters (duplicates would only repeat inputs)
+SIG = {'SIGMA28': list(dict.fromkeys(SIGMA28)), 'SIGMA12': list(dict.fromkeys(SIGMA12))}
 
 
 def fixed_inputs():
@@ -386,12 +395,13 @@ def tasks(tier, seed):
     fx = list(enumerate(fixed_inputs()))
     out = [('fixed', fx[i::48]) for i in range(48)]
     for name, lo, hi, tail, mod in (('SIGMA28', 0, n28, 2, 1), ('SIGMA12', n28 + 1, n12, 3, 1),
-                                    ('SIGMA12', extra or 1, extra or 0, 3, 4)):
+                                    ('SIGMA12', extra or 1, extra or 0, 3, 3)):
         for L in range(lo, hi + 1):
-            p = max(0, L - tail)
+            p = max(0, L - (tail if L > 5 or name == 'SIGMA28' else 2))
             for pre in itertools.product(SIG[name], repeat=p):
                 out.append(('alpha', name, L, ''.join(pre), mod))
-    return out
+    # spread the expensive regions (tab-led strings are code blocks: Pygments guesses a lexer)
+    return [t for i in range(64) for t in out[i::64]]
 
 
 def task_items(task, seed, fixed_set):
@@ -418,6 +428,20 @@ _FAMS = None
 _FIXED = None
 
 
+def tame_pygments():
+    """Cost control inside the trusted library only (Pygments is assumed total, DESIGN section 5 C01):
+    `guess_lexer` rescans the installed entry points and scores ~500 lexers on every call (7-40 ms);
+    it is a pure function of the code text, so it is memoised (exceptions are not cached)."""
+    import functools
+    try:
+        import mistletoe.contrib.pygments_renderer as pr
+    except Exception:
+        return
+    g = getattr(pr, 'guess_lexer', None)
+    if g is not None and not hasattr(g, 'cache_info'):
+        pr.guess_lexer = functools.lru_cache(maxsize=200000)(g)
+
+
 def work(arg):
     global _FAMS, _FIXED
     signal.signal(signal.SIGALRM, _on_alarm)
@@ -425,6 +449,7 @@ def work(arg):
     if _FAMS is None:
         _FAMS = families()
         _FIXED = set(fixed_inputs())
+        tame_pygments()
     seed, task = arg
     items = task_items(task, seed, _FIXED)
     stats = {'evaluations': 0, 'contracts': 0, 'nontrivial': 0, 'admitted': 0}
@@ -434,10 +459,9 @@ def work(arg):
     by_class = {}
     for f in fails:
         by_class[f['class']] = by_class.get(f['class'], 0) + 1
-    fails.sort(key=lambda f: (len(f['input']), f['input'], f['key']))
     return {'evaluations': stats['evaluations'], 'contract_evaluations': stats['contracts'],
             'distinct_nontrivial': stats['nontrivial'], 'admitted': stats['admitted'],
-            'failures': fails[:MAX_KEEP], 'failures_total': len(fails), 'by_class': by_class,
+            'failures': keep_smallest(fails, MAX_KEEP), 'failures_total': len(fails), 'by_class': by_class,
             'failing_inputs': len({f['input'] for f in fails}),
             'samples': [items[len(items) // 2][1]] if items and task[0] == 'alpha' and len(task[3]) % 2 else []}
 
@@ -451,17 +475,16 @@ def run(tier, seed, workers):
         for k, v in r['by_class'].items():
             by_class[k] = by_class.get(k, 0) + v
     fails = out['failures']
-    fails.sort(key=lambda f: (len(f['input']), f['input'], f['key']))
     n28, n12, extra = bounds(tier)
     out.update({
-        'domain': '%d handcrafted ∪ 652 spec examples ∪ ALPHA(SIGMA28,%d) ∪ ALPHA(SIGMA12,%d)%s (%d distinct inputs) as str; '
+        'domain': '%d handcrafted ∪ 652 spec examples ∪ ALPHA(SIGMA28 [27 distinct characters],%d) ∪ ALPHA(SIGMA12,%d)%s (%d distinct inputs) as str; '
                   'those with enumeration rank %% 10 == %d also as list of lines and io.StringIO (11 default-option '
                   'renderers); x %d configurations of the 11 bundled renderers (Html x 4 quote-escaping combos, '
                   'Html(process_html_tokens=False), Markdown x normalize_whitespace x max_line_length {None,1,2,3,10,40}, '
                   'LaTeX, Ast, Toc, GithubWiki, MathJax, Pygments x fail_on_unsupported_language, Jira, XWiki20) in %d '
                   'token-set families; nesting <= 100 levels; limit %d s per (input, configuration)'
                   % (len(nasty()), n28, n12,
-                     ' ∪ {x in SIGMA12^%d : rank(x) %% 4 == %d}' % (extra, seed % 4) if extra else '',
+                     ' ∪ {x in SIGMA12^%d : rank(x) %% 3 == %d}' % (extra, seed % 3) if extra else '',
                      out['evaluations'], seed % 10, len(CONFIGS), len(families()), LIMIT_S),
         'rule': 'exhaustive enumeration of the alphabets + fixed lists; a case is non-trivial when its parse (Html token '
                 'set) is not empty and not a single paragraph of plain text',
@@ -469,5 +492,5 @@ def run(tier, seed, workers):
         'failures_total': sum(r['failures_total'] for r in res),
         'failures_by_class': dict(sorted(by_class.items(), key=lambda kv: -kv[1])),
         'failing_inputs_distinct': sum(r['failing_inputs'] for r in res),
-        'failures': fails[:MAX_KEEP]})
+        'failures': keep_smallest(fails, MAX_KEEP)})
     return out
